@@ -102,3 +102,50 @@ package analysis
 //@   loop 4 invariant placed(predToStratum, strata, rangeindex + 1) && cleanUpTo(dep, strata, rangeindex)
 //@   loop 4 invariant forall a ast.PredicateSym, b ast.PredicateSym :: a in seen3 && a != sym#2 && negEdge(dep, a, b) ==> !(b in c)
 //@   loop 4 invariant sym#2 in c && (forall b ast.PredicateSym :: b in seen && negEdge(dep, sym#2, b) ==> !(b in c))
+
+// ---- C10: a declaration that passes the context-free check has one bound per argument in every row ------
+
+//@ spec func rowsOK(d ast.Decl, arity int) bool = forall i int :: 0 <= i && i < len(d.Bounds) ==> len(d.Bounds[i].Bounds) == arity
+
+//@ func (c *declChecker) checkBound(p, boundDecl)
+//@   requires c != nil
+//@   modifies c.errs
+//@   ensures len(c.errs) >= old(len(c.errs))
+//@   ensures len(c.errs) == old(len(c.errs)) ==> len(boundDecl.Bounds) == len(p.Args)
+//@   loop 1 invariant len(c.errs) >= old(len(c.errs)) && (len(c.errs) == old(len(c.errs)) ==> len(boundDecl.Bounds) == len(p.Args))
+
+//@ func (c *declChecker) check()
+//@   requires c != nil && c.errs == nil
+//@   loop 1 invariant c.errs == nil || len(c.errs) >= 1
+//@   modifies c.errs
+//@   ensures len(result) == 0 ==> rowsOK(c.decl, len(c.decl.DeclaredAtom.Args))
+//@   loop 5 invariant p == c.decl.DeclaredAtom && (len(c.errs) == 0 ==> (forall k int :: 0 <= k && k < rangeindex#5 + 1 ==> len(c.decl.Bounds[k].Bounds) == len(p.Args)))
+
+//@ func CheckDecl(decl)
+//@   modifies nothing
+//@   ensures len(result) == 0 ==> rowsOK(decl, len(decl.DeclaredAtom.Args))
+
+// Every declaration handed to the desugaring step has passed the context-free check (one bound per argument in
+// every row) - the precondition that keeps desugarOneDecl's indexing in range. Predicates supplied by the caller
+// (extraPredicates) are taken as already checked.
+//@ spec func declsOK(m map[ast.PredicateSym]ast.Decl) bool = forall p ast.PredicateSym :: p in m ==> rowsOK(m[p], len(m[p].DeclaredAtom.Args)) && len(m[p].DeclaredAtom.Args) == p.Arity
+//@ spec func keysOK(m map[ast.PredicateSym]ast.Decl) bool = forall p ast.PredicateSym :: p in m ==> len(m[p].DeclaredAtom.Args) == p.Arity
+//@ spec func awf(a *Analyzer) bool = a.decl != nil && a.decl != a.extraPredicates && declsOK(a.extraPredicates) && keysOK(a.decl)
+//@      && allocated(a.decl) && (a.extraPredicates == nil || allocated(a.extraPredicates))
+
+//@ func (a *Analyzer) EnsureDecl(clauses)
+//@   trusted
+//@   requires a != nil
+//@   modifies a.decl
+//@   ensures keysOK(a.decl)
+
+//@ func (a *Analyzer) Analyze(program)
+//@   opt nosafety
+//@   requires a != nil && a.decl != nil && a.decl != a.extraPredicates && declsOK(a.extraPredicates) && allocated(a.decl) && (a.extraPredicates == nil || allocated(a.extraPredicates))
+//@   guard call CheckAndDesugar: declsOK(globalDecls)
+//@   loop 1 invariant awf(a)
+//@   loop 2 invariant awf(a)
+//@   loop 3 invariant awf(a) && declsOK(globalDecls) && globalDecls != a.decl && globalDecls != a.extraPredicates
+//@   loop 4 invariant awf(a)
+//@   loop 4 invariant globalDecls != a.decl && globalDecls != a.extraPredicates && globalDecls != nil
+//@   loop 4 invariant declsOK(globalDecls)
